@@ -315,6 +315,11 @@ def _rewire_contract(wrapper, cond, with_degree):
     return K(wrapper, "core", props=("C17", "C20"), requires=req,
              loops={P + ".while": inv + ["shape(edges,0)==E"]},
              ensures=inv, asserts={"store:A": accepted},
+             rtc_scope=4, rtc_prefs=["shape(A,0)==4", "E==2", "iterations==2", "eps==1.0",
+                                     "all(D[a,b]==0 for a in range(4) for b in range(4))",
+                                     "edges[0,0]==0 and edges[0,1]==1 and edges[1,0]==2 and edges[1,1]==3",
+                                     "all(A[a,b]==ite((a==0 and b==1) or (a==1 and b==0) or (a==2 and b==3) or (a==3 and b==2),1,0) for a in range(4) for b in range(4))"]
+             + (["all(degree[a]==1 for a in range(4))"] if with_degree else []),
              checks=("bounds", "narrow", "divzero"))
 
 
@@ -344,7 +349,8 @@ K("_randomlySetCrossLinks", "core", props=("C17", "C20"),
   requires=_NODES + [_BIN, "m>=1", "n>=1"],
   ensures=[_BIN, _OW_DONE.format(hi="m"), _OW_FRAME],
   loops={"_": [_BIN], "_.while": [_BIN]},
-  asserts={"store:cross_A": ["cross_A[i,j]==0"]})
+  asserts={"store:cross_A": ["cross_A[i,j]==0"]},
+  rtc_prefs=["number_cross_links==1", "all(cross_A[i,j]==0 for i in range(m) for j in range(n))", "m==2", "n==2"])
 
 _TAB = ("all(0<=cross_links[e,0] and cross_links[e,0]<m and 0<=cross_links[e,1] and cross_links[e,1]<n "
         "and cross_A[cross_links[e,0],cross_links[e,1]]==1 for e in range(number_cross_links))")
@@ -368,7 +374,11 @@ K("_randomlyRewireCrossLinks", "core", props=("C17", "C20"),
   ensures=[_sh(_BIN), _sh(_TAB), _TABD, _sh(_ROWS), _sh(_OW_DONE.format(hi="m")), _sh(_OW_FRAME)],
   loops={"_": [_BIN, _TAB, _TABD, _ROWS, "m==shape(nodes1,0) and n==shape(nodes2,0)"],
          "_.while": [_BIN, _TAB, _TABD, _ROWS, "m==shape(nodes1,0) and n==shape(nodes2,0)"]},
-  asserts={"store:cross_A": ["cross_A[a,b]==1 and cross_A[c,d]==1 and cross_A[a,d]==0 and cross_A[c,b]==0"]})
+  asserts={"store:cross_A": ["cross_A[a,b]==1 and cross_A[c,d]==1 and cross_A[a,d]==0 and cross_A[c,b]==0"]},
+  rtc_scope=4,
+  rtc_prefs=["shape(nodes1,0)==2", "shape(nodes2,0)==2", "number_cross_links==2", "number_swaps==2",
+             "cross_A[0,0]==1 and cross_A[1,1]==1 and cross_A[0,1]==0 and cross_A[1,0]==0",
+             "cross_links[0,0]==0 and cross_links[0,1]==0 and cross_links[1,0]==1 and cross_links[1,1]==1"])
 for _nm in ("_randomlySetCrossLinks", "_randomlyRewireCrossLinks"):
     REG[_nm][0].contract.callee_contracts = {"overwriteAdjacency": REG["overwriteAdjacency"][0].contract}
 
